@@ -57,7 +57,7 @@ func c15Config(p *c15Params) string {
 	if p.HostPort {
 		host = fmt.Sprintf("%s:%d", backendAddr, p.Port)
 	}
-	typ := map[string]string{"http": "http-proxy", "copy-tcp": "copy", "copy-udp": "copy", "dns": "dns-proxy", "ssh": "ssh-proxy"}[p.Mode]
+	typ := map[string]string{"http": "http-proxy", "copy-tcp": "copy", "copy-udp": "copy", "dns": "dns-proxy", "dns-tcp": "dns-proxy", "ssh": "ssh-proxy"}[p.Mode]
 	proto := "tcp"
 	if p.Mode == "copy-udp" || p.Mode == "dns" {
 		proto = "udp"
@@ -74,6 +74,9 @@ func genC15(seed uint64, idx int, tier string) *Scenario {
 	r := NewRng(seed, "c15")
 	p := c15Params{Mode: []string{"http", "http", "copy-tcp", "copy-udp", "dns", "http"}[idx%6], HostPort: r.Chance(0.5), Port: []int{8080, 80, 5353, 9000}[r.Intn(4)]}
 	sc := &Scenario{Engine: "c15"}
+	if idx%6 == 1 && (idx/6)%2 == 0 {
+		p.Mode = "dns-tcp" // the DNS proxy on a TCP port: queries framed with the two-byte length of RFC 1035 4.2.2
+	}
 	if idx%6 == 5 {
 		genC15SSH(r, &p, sc)
 		sc.Config = c15Config(&p)
@@ -161,6 +164,16 @@ func genC15(seed uint64, idx int, tier string) *Scenario {
 				a.Ops = append(a.Ops, op)
 			}
 			a.Ops = append(a.Ops, Op{K: "sleep", Ms: 3000}, Op{K: "close"})
+		case "dns-tcp":
+			// one query per connection (that is what the service serves), in one segment or cut in two
+			q := dnsQueryBytes(uint16(r.Intn(65536)), fmt.Sprintf("c%d.%s.example", c, r.word(1, 10)))
+			data := append([]byte{byte(len(q) >> 8), byte(len(q))}, q...)
+			var cuts []int
+			if r.Chance(0.4) {
+				cuts = []int{r.Range(1, len(data)-1)}
+			}
+			exs = append(exs, c15Exchange{Req: hex.EncodeToString(data)})
+			a.Ops = append(a.Ops, SendOp(data, cuts, ""), Op{K: "sleep", Ms: 3000}, Op{K: "close"})
 		case "copy-tcp":
 			for k := 0; k < n; k++ {
 				data := r.Bytes(r.Range(1, 2000))
@@ -259,7 +272,7 @@ func runC15(t *testing.T, sc *Scenario) Result {
 		}
 		// backend and decoy listeners (before boot, inside the bubble)
 		switch p.Mode {
-		case "http", "copy-tcp":
+		case "http", "copy-tcp", "dns-tcp":
 			for _, ipp := range c15Listeners(&p) {
 				ip, lport := ipp.ip, ipp.port
 				l, err := n.ListenTCP(&net.TCPAddr{IP: net.ParseIP(ip), Port: lport}, "backend")
@@ -371,7 +384,10 @@ func runC15(t *testing.T, sc *Scenario) Result {
 	switch p.Mode {
 	case "http":
 		c15CheckHTTP(sc, obs, &p, be, faulty, &res)
-	case "copy-tcp":
+	case "copy-tcp", "dns-tcp":
+		if p.Mode == "dns-tcp" {
+			site = "dns-proxy-tcp"
+		}
 		// every client's stream reached the backend unchanged on its own connection, and came back transformed
 		var got [][]byte
 		for _, s := range be.streams {
@@ -404,6 +420,9 @@ func runC15(t *testing.T, sc *Scenario) Result {
 				return res
 			}
 			want := copyTransform(sent)
+			if p.Mode == "dns-tcp" {
+				want = dnsTCPReply(sent)
+			}
 			if faulty {
 				if !bytes.HasPrefix(want, obs.Conns[ai].Recv) {
 					res.Violate("reply-corrupt", site, fmt.Sprintf("client %d received bytes that are not a prefix of the backend's reply", ai))
@@ -415,8 +434,8 @@ func runC15(t *testing.T, sc *Scenario) Result {
 				res.Violate("reply-not-relayed-to-client", site, fmt.Sprintf("client %d sent %d bytes, the backend answered %d bytes, the client received %d bytes", ai, len(sent), len(want), len(obs.Conns[ai].Recv)))
 				return res
 			}
-			if !c15HasEvent(obs, a.Src, "copy") {
-				res.Violate("relay-not-reported", site, fmt.Sprintf("no copy event attributed to client %s", a.Src))
+			if cat := map[string]string{"copy-tcp": "copy", "dns-tcp": "dns-proxy"}[p.Mode]; !c15HasEvent(obs, a.Src, cat) {
+				res.Violate("relay-not-reported", site, fmt.Sprintf("no %s event attributed to client %s", cat, a.Src))
 				return res
 			}
 			res.probe("streams-verified", 1)
@@ -568,6 +587,29 @@ func c15Serve(be *c15Backend, p *c15Params, respByTag map[string]c15Exchange, c 
 			if err != nil {
 				return
 			}
+		}
+	}
+	if p.Mode == "dns-tcp" {
+		// a DNS server on TCP: length-prefixed queries, each answered with the length-prefixed response
+		for {
+			hdr := make([]byte, 2)
+			if _, err := io.ReadFull(c, hdr); err != nil {
+				return
+			}
+			msg := make([]byte, int(hdr[0])<<8|int(hdr[1]))
+			n, err := io.ReadFull(c, msg)
+			be.mu.Lock()
+			be.streams[key] = append(append(be.streams[key], hdr...), msg[:n]...)
+			be.mu.Unlock()
+			if err != nil {
+				return
+			}
+			reply := dnsTCPReply(append(hdr, msg...))
+			if p.Fault == "close-mid-reply" {
+				c.Write(reply[:len(reply)/2])
+				return
+			}
+			c.Write(reply)
 		}
 	}
 	// http: record raw bytes, parse requests, answer with the scripted response for the request's tag
@@ -833,4 +875,13 @@ func sortedBoolKeys(m map[string]bool) []string {
 	}
 	sort.Strings(ks)
 	return ks
+}
+
+// dnsTCPReply: the framed response a DNS server gives to a framed query - the same message with the QR bit set.
+func dnsTCPReply(framedQuery []byte) []byte {
+	r := append([]byte(nil), framedQuery...)
+	if len(r) > 4 {
+		r[4] |= 0x80
+	}
+	return r
 }
